@@ -254,57 +254,111 @@ def check_inclusion(ctx, rule, name, guard_patterns, fix_pattern, where, what):
                  sample={"rule": rule, "instance": name, "guard": [p for p, _ in guard_patterns], "fix": fix_pattern, "included": ok}, evals=50)
 
 
+class Guard:
+    """One lexical guard call, normalised: pattern expression, guarded value expression, flag texts, the real call node."""
+
+    def __init__(self, call, pattern, value, flags, whole):
+        self.call, self.pattern, self.value, self.flags, self.whole = call, pattern, value, flags, whole
+
+    @property
+    def ascii(self):
+        return any("ASCII" in f for f in self.flags)
+
+
+def module_compiled(fn):
+    out = {}
+    for st in getattr(fn, "_module").tree.body:
+        if isinstance(st, ast.Assign) and isinstance(st.targets[0], ast.Name) and isinstance(st.value, ast.Call) and unparse(st.value.func) == "re.compile" and st.value.args:
+            out[st.targets[0].id] = st.value
+    return out
+
+
 def guard_calls(fn):
-    """`re.fullmatch(P, V, [flags])` calls inside tests whose failing outcome rejects: [(call, test node)]"""
+    """re.fullmatch(P, V, flags) | <compiled>.fullmatch(V) | re.match / <compiled>.match (whole-string only when the pattern ends in \\Z).
+    <compiled> is a module-level re.compile(...) name or a conditional expression over such names."""
     out = []
     for n in walk_no_nested(fn):
-        if isinstance(n, ast.Call) and unparse(n.func) in ("re.fullmatch",) and len(n.args) >= 2:
-            out.append(n)
+        if not isinstance(n, ast.Call) or not isinstance(n.func, ast.Attribute) or n.func.attr not in ("fullmatch", "match"):
+            continue
+        recv = n.func.value
+        if unparse(recv) == "re" and len(n.args) >= 2:
+            flags = [unparse(a) for a in n.args[2:]] + [unparse(k.value) for k in n.keywords]
+            out.append(Guard(n, n.args[0], n.args[1], flags, n.func.attr == "fullmatch"))
+        elif n.args:
+            out.append(Guard(n, recv, n.args[0], [], n.func.attr == "fullmatch"))
+    return out
+
+
+def resolve_pattern(fn, expr, guard, compiled):
+    """-> {'int': (pattern, ascii, whole), 'float': ...} or {'*': ...}; {} when the pattern does not fold."""
+    def one(e, flags, whole):
+        if isinstance(e, ast.Constant) and isinstance(e.value, str):
+            pat = e.value
+            if not whole:
+                if not pat.endswith("\\Z"):
+                    return None  # `$` / no end anchor: not a whole-string guard
+                pat = pat[:-2]
+            return (pat, any("ASCII" in f for f in flags))
+        if isinstance(e, ast.Name) and e.id in compiled:
+            c = compiled[e.id]
+            fl = [unparse(a) for a in c.args[1:]] + [unparse(k.value) for k in c.keywords]
+            return one(c.args[0], fl, whole)
+        return None
+    if isinstance(expr, ast.IfExp) and re.fullmatch(r"num_type (is|==) (int|float)", unparse(expr.test)):
+        which = unparse(expr.test).split()[-1]
+        other = "float" if which == "int" else "int"
+        a, b = one(expr.body, guard.flags, guard.whole), one(expr.orelse, guard.flags, guard.whole)
+        return {k: v for k, v in ((which, a), (other, b)) if v}
+    if isinstance(expr, ast.Name) and expr.id not in compiled:
+        # a local chosen by the numeric type: `if num_type is int: P = ... else: P = ...`
+        out = {}
+        for n in walk_no_nested(fn):
+            if isinstance(n, ast.If) and re.fullmatch(r"num_type (is|==) (int|float)", unparse(n.test)):
+                which = unparse(n.test).split()[-1]
+                other = "float" if which == "int" else "int"
+                for branch, key in ((n.body, which), (n.orelse, other)):
+                    for st in branch:
+                        if isinstance(st, ast.Assign) and unparse(st.targets[0]) == expr.id:
+                            v = one(st.value, guard.flags, guard.whole)
+                            if v:
+                                out[key] = v
+        return out
+    v = one(expr, guard.flags, guard.whole)
+    return {"*": v} if v else {}
+
+
+def protects(g, guard, accepts):
+    """Is every accepting return dominated by the edge on which the guard call matched?"""
+    tn = [n for n in g.nodes if n.kind == "test" and any(x is guard.call for x in ast.walk(n.ast))]
+    if not tn:
+        return False
+    passing = {lab for lab in ("true", "false") if (unparse(guard.call), True) in facts(tn[0].ast, lab == "true")}
+    return bool(passing) and all(any(g.dominated_by(a.id, tn[0].id, lab, exc=False) for lab in passing) for a in accepts)
+
+
+def number_guards(ctx, rule, repo):
+    """{'int': (pattern, ascii), 'float': (...)} for the number helper; a type is missing when no guard protects every accepting path."""
+    fn = repo.func(NUM)
+    g = CFG(fn)
+    compiled = module_compiled(fn)
+    accepts = [n for n in g.nodes if n.kind == "stmt" and isinstance(n.ast, ast.Return) and (n.ast.value is None or unparse(n.ast.value) == "None")]
+    value = fn.args.args[0].arg
+    out = {}
+    for gd in guard_calls(fn):
+        if unparse(gd.value) != value or not protects(g, gd, accepts):
+            continue
+        pats = resolve_pattern(fn, gd.pattern, gd, compiled)
+        for k, v in pats.items():
+            if k == "*":
+                out.setdefault("int", v)
+                out.setdefault("float", v)
+            else:
+                out[k] = v
     return out
 
 
 def ascii_flag(call):
     return any("ASCII" in unparse(a) for a in call.args[2:]) or any("ASCII" in unparse(k.value) for k in call.keywords)
-
-
-def number_guards(ctx, rule, repo):
-    """{ 'int': (pattern, ascii), 'float': (...)} for the number helper, or missing when a guard does not protect every accepting path."""
-    fn = repo.func(NUM)
-    g = CFG(fn)
-    out = {}
-    accepts = [n for n in g.nodes if n.kind == "stmt" and isinstance(n.ast, ast.Return) and (n.ast.value is None or unparse(n.ast.value) == "None")]
-    guards = guard_calls(fn)
-    value = fn.args.args[0].arg
-    usable = []
-    for c in guards:
-        if unparse(c.args[1]) != value:
-            continue
-        # the accepting return is dominated by the guard's pass edge
-        tn = [n for n in g.nodes if n.kind == "test" and any(x is c for x in ast.walk(n.ast))]
-        if not tn:
-            continue
-        passing = set()
-        for lab in ("true", "false"):
-            if (unparse(c), True) in facts(tn[0].ast, lab == "true"):
-                passing.add(lab)
-        ok = bool(passing) and all(any(g.dominated_by(a.id, tn[0].id, lab, exc=False) for lab in passing) for a in accepts)
-        if ok:
-            usable.append(c)
-    for c in usable:
-        p = c.args[0]
-        if isinstance(p, ast.Constant):
-            out["int"] = out["float"] = (p.value, ascii_flag(c))
-        elif isinstance(p, ast.Name):
-            # pattern chosen by the numeric type: `if num_type is int: P = ... else: P = ...`
-            for n in walk_no_nested(fn):
-                if isinstance(n, ast.If) and re.fullmatch(r"num_type (is|==) (int|float)", unparse(n.test)):
-                    which = unparse(n.test).split()[-1]
-                    other = "float" if which == "int" else "int"
-                    for branch, key in ((n.body, which), (n.orelse, other)):
-                        for st in branch:
-                            if isinstance(st, ast.Assign) and unparse(st.targets[0]) == p.id and isinstance(st.value, ast.Constant):
-                                out[key] = (st.value.value, ascii_flag(c))
-    return out
 
 
 def fold_format_guard(fn, fmt_value):
@@ -350,8 +404,9 @@ def fold_format_guard(fn, fmt_value):
                 v = ev(n.value)
                 if v is not None:
                     env[n.targets[0].id] = v
-    for c in guard_calls(fn):
-        pat = (ev(c.args[0]), ascii_flag(c), c)
+    for gd in guard_calls(fn):
+        if gd.whole:
+            pat = (ev(gd.pattern), gd.ascii, gd.call)
     return pat
 
 
@@ -360,15 +415,7 @@ def datetime_guards(ctx, rule, repo):
     g = CFG(fn)
     value = fn.args.args[0].arg
     accepts = [n for n in g.nodes if n.kind == "stmt" and isinstance(n.ast, ast.Return) and (n.ast.value is None or unparse(n.ast.value) == "None")]
-    guards = [c for c in guard_calls(fn) if unparse(c.args[1]) == value]
-    protected = False
-    for c in guards:
-        tn = [n for n in g.nodes if n.kind == "test" and any(x is c for x in ast.walk(n.ast))]
-        if not tn:
-            continue
-        passing = {lab for lab in ("true", "false") if (unparse(c), True) in facts(tn[0].ast, lab == "true")}
-        if passing and all(any(g.dominated_by(a.id, tn[0].id, lab, exc=False) for lab in passing) for a in accepts):
-            protected = True
+    protected = any(unparse(gd.value) == value and gd.whole and protects(g, gd, accepts) for gd in guard_calls(fn))
     # the optional fractional-seconds extension of the format
     ext = None
     for n in walk_no_nested(fn):
